@@ -18,7 +18,8 @@ EXPECTED = os.path.join(HERE, "surface_expected.json")
 # module -> generated files whose meaning depends on it
 DEPENDS = {
     "scheduler/__init__.py": ["GenRegistry.v", "GenOnce.v"],
-    "scheduler/error.py": ["GenJobInit.v", "GenJobUtil.v"],
+    # the class hierarchy of SchedulerError decides what `except Exception` (Job._exec, callers) catches
+    "scheduler/error.py": ["GenJobInit.v", "GenJobUtil.v", "GenJobState.v", "GenRegistry.v", "GenOnce.v", "GenStr.v"],
     "scheduler/message.py": ["GenJobInit.v", "GenJobUtil.v", "GenOnce.v"],
     "scheduler/util.py": ["GenOccur.v"],
     "scheduler/prioritization.py": ["GenPrio.v"],
